@@ -73,6 +73,9 @@ def _ints(dtype, n, rng, vals):
     if vals == "equal":
         return np.full(n, 7 % (info.max + 1), dtype=dtype)
     edge = [info.min, info.max, 0, 1, info.max - 1, info.min + 1] + ([-1] if info.min < 0 else [])
+    if info.bits == 64:
+        # neighbours that float64 cannot tell apart
+        edge += [2 ** 53 + 1, 2 ** 53 + 2, 2 ** 53] + ([-(2 ** 53) - 1] if info.min < 0 else [])
     out = rng.integers(info.min, info.max, n, dtype=dtype, endpoint=True)
     if n:
         k = min(n, len(edge))
